@@ -20,6 +20,10 @@ enum Op {
 	Alias(usize, usize),
 	/// merge a module built from these registrations: (kind, name[, name2])
 	Merge(usize),
+	/// the same, but a clone of the merged-in module is alive during the merge (clones share their table until written to)
+	MergeShared(usize),
+	/// merge a clone of the oldest kept clone into the live module
+	MergeKept,
 	Remove(usize),
 	CloneKeep,
 	/// drop the live module and continue with the oldest kept clone (non-initial start states)
@@ -135,6 +139,45 @@ fn apply(sys: &mut Sys, rf: &mut RefSys, op: &Op, idx: usize) -> Option<(bool, b
 			};
 			Some((got, exp))
 		}
+		Op::MergeShared(o) => {
+			let mut other = RpcModule::new(());
+			let mut oref = Ref::new();
+			for (k, (kind, x, y)) in OTHERS[*o].iter().enumerate() {
+				let t = tag + 1 + k as u32;
+				let a = reg(&mut other, *kind, *x, *y, t);
+				let b = ref_reg(&mut oref, *kind, *x, *y, t);
+				assert_eq!(a, b, "building the other module");
+			}
+			let witness = other.clone();
+			let got = sys.live.merge(other).is_ok();
+			// the surviving clone of the source is untouched either way
+			let mut names: Vec<&str> = witness.method_names().collect();
+			names.sort();
+			let want: Vec<&str> = oref.keys().copied().collect();
+			assert_eq!(names, want, "the clone of a merged-in module lost or gained names");
+			drop(witness);
+			let exp = if oref.keys().any(|k| rf.live.contains_key(k)) {
+				false
+			} else {
+				rf.live.extend(oref);
+				true
+			};
+			Some((got, exp))
+		}
+		Op::MergeKept => {
+			if sys.kept.is_empty() {
+				return None;
+			}
+			let got = sys.live.merge(sys.kept[0].clone()).is_ok();
+			let src = rf.kept[0].clone();
+			let exp = if src.keys().any(|k| rf.live.contains_key(k)) {
+				false
+			} else {
+				rf.live.extend(src);
+				true
+			};
+			Some((got, exp))
+		}
 		Op::Remove(x) => {
 			let got = sys.live.remove_method(NAMES[*x]).is_some();
 			let exp = rf.live.remove(NAMES[*x]).is_some();
@@ -237,11 +280,15 @@ pub fn check(rep: &Reporter) {
 	for o in 0..OTHERS.len() {
 		menu.push(Op::Merge(o));
 	}
+	for o in [1, 3, 4, 6] {
+		menu.push(Op::MergeShared(o));
+	}
+	menu.push(Op::MergeKept);
 	menu.push(Op::CloneKeep);
 	menu.push(Op::SwapToClone);
 	let max_depth = if rep.tier.thorough() { 12 } else { 8 };
 	rep.set_rule(&format!(
-		"BFS over histories of {{register sync/async/blocking(x), register_subscription(x,y) and _raw incl. x=y, register_alias(x,y), merge(one of {} prepared modules), remove_method(x), clone-and-keep (≤2), continue-from-clone}} with x,y ∈ {{a,b,c}} up to depth {max_depth}; state key = name→(kind, handler identity up to renaming) of the live module and every kept clone; after every transition the real module(s) are observed (Ok/Err of the op, method_names(), raw_json_request to a,b,c and an unregistered name on the live module and every clone) and compared with a BTreeMap reference. Every transition is a distinct (state, op) pair.",
+		"BFS over histories of {{register sync/async/blocking(x), register_subscription(x,y) and _raw incl. x=y, register_alias(x,y), merge(one of {} prepared modules; 4 of them also while a clone of the merged-in module is alive; a clone of a kept clone), remove_method(x), clone-and-keep (≤2), continue-from-clone}} with x,y ∈ {{a,b,c}} up to depth {max_depth}; state key = name→(kind, handler identity up to renaming) of the live module and every kept clone; after every transition the real module(s) are observed (Ok/Err of the op, method_names(), raw_json_request to a,b,c and an unregistered name on the live module and every clone) and compared with a BTreeMap reference. Every transition is a distinct (state, op) pair.",
 		OTHERS.len()
 	));
 	rep.assume("handler identity is observed through the value the handler returns (methods: a tag; subscriptions: the code of the rejection they send); unsubscribe handlers are identified by kind only");
